@@ -4,7 +4,7 @@ model, and is what the compiler's `file:line:col: error:` is compared with).
 
 AST (python tuples), mirrors coq/C05/Model.v:
   ('local',x,q) ('assign',x) ('use',x) ('func',f,[params],block) ('call',f,n) ('do',b) ('if',t,e)
-  ('while',b) ('repeat',b) ('for',b) ('switch',[blocks],els,d) ('break',) ('continue',)
+  ('while',b) ('repeat',b) ('for',b) ('switch',[blocks],els,d[,case values]) ('break',) ('continue',)
   ('fallthrough',) ('label',l) ('goto',l) ('defer',b) ('index',len,k) ('conv',t,v)
 """
 import re
@@ -119,8 +119,10 @@ class Printer:
             self.block(s[1], ind + 1, out); self.emit(ind, "end")
         elif t == 'switch':
             ln = self.emit(ind, "switch sel() do"); out += [str(ln), "S", "1" if s[2] else "0", "["]
+            vals = s[4] if len(s) > 4 else list(range(1, len(s[1]) + 1))
             for i, b in enumerate(s[1]):
-                self.emit(ind, "case %d then" % (i + 1))
+                cl = self.emit(ind, "case %d then" % vals[i])
+                out += [str(cl), str(vals[i])]
                 self.block(b, ind + 1, out)
             out.append("]")
             if s[2]:
@@ -162,7 +164,7 @@ def force_refs(b, rng, prob=1.0):
         elif t == 'func': out.append(('func', s[1], s[2], force_refs(s[3], rng, prob)))
         elif t in ('do', 'while', 'repeat', 'for', 'defer'): out.append((t, force_refs(s[1], rng, prob)))
         elif t == 'if': out.append(('if', force_refs(s[1], rng, prob), force_refs(s[2], rng, prob)))
-        elif t == 'switch': out.append(('switch', [force_refs(x, rng, prob) for x in s[1]], s[2], force_refs(s[3], rng, prob)))
+        elif t == 'switch': out.append(('switch', [force_refs(x, rng, prob) for x in s[1]], s[2], force_refs(s[3], rng, prob)) + tuple(s[4:]))
         else: out.append(s)
     return out
 
@@ -237,6 +239,7 @@ def classify(msg):
     if "out of range" in m: return "range"
     if "out of bounds" in m or "cannot index negative" in m: return "index"
     if "but got nil" in m: return "nilarg"
+    if "is already used in another case" in m: return "dupcase"
     return "other:" + m[:80]
 
 
@@ -400,7 +403,10 @@ class Gen:
                     b.append(('fallthrough',))
             blocks.append(b)
         d = self.block(icx, 0, 2) if els else []
-        return ('switch', blocks, els, d)
+        vals = r.sample(range(1, 9), n)
+        if n >= 2 and r.random() < 0.12:
+            vals[r.randrange(1, n)] = vals[0]          # duplicate case value
+        return ('switch', blocks, els, d, vals)
 
 
 def has_last_case_ft(b):
@@ -445,7 +451,9 @@ def targeted(rng, ntypes=1):
         [sw([[('if', [FT], [])], [U]])], [sw([[('do', [FT])], [U]])],
         [sw([[U], [U, FT]], True, [U])], [sw([[U, FT]], True, [U])], [sw([[U, FT]])],
         [sw([[U, FT], [U, FT], [U]])], [sw([[U]], True, [FT])], [sw([[U], [U, FT]])], [sw([[U, FT], [U], [U, FT]])],
-        [sw([[U], [FT]])], [sw([[U]], True, [U, FT])],
+        [sw([[U], [FT]])],
+        [sw([[U], [U]]) + ([1, 1],)], [sw([[U], [U], [U]]) + ([3, 5, 3],)], [sw([[U], [U], [U]], True, [U]) + ([2, 7, 7],)],
+        [sw([[sw([[U], [U]]) + ([4, 4],)], [U]]) + ([4, 5],)], [sw([[sw([[U], [U]]) + ([1, 2],)], [U]]) + ([1, 2],)], [sw([[U]], True, [U, FT])],
         [FT], [('while', [FT])], [sw([[('func', 101, [], [FT])], [U]])],
         [sw([[sw([[U, FT], [U]]), FT], [U]])], [sw([[sw([[U, FT]]), FT], [U]])],
     ]
